@@ -40,8 +40,19 @@ def isEndgame (p : Pos) : Bool := gamePhase p < endgameBorder
 def isPawnEndgame (p : Pos) : Bool :=
   [0, 1].all fun c => (List.range 6).all fun t => p.pieces c t == 0#64
 
-/-- `Contempt` -/
-def contempt (p : Pos) : Int := if isEndgame p then 0 else 400
+/-- `Contempt`: the draw scores of `evaluation.Contempt` outside / inside the endgame, read off the running code (400 and 0 at the time of writing) -/
+def contemptMid : Int := Gen.eval_contempt.getD 0 0
+def contemptEnd : Int := Gen.eval_contempt.getD 1 0
+def contempt (p : Pos) : Int := if isEndgame p then contemptEnd else contemptMid
+
+/-- the only fact the proofs use about the two draw scores: they are small (re-evaluated on every run) -/
+theorem contempt_small (p : Pos) : -1000 ≤ contempt p ∧ contempt p ≤ 1000 := by
+  have h1 : -1000 ≤ contemptMid ∧ contemptMid ≤ 1000 := by decide
+  have h2 : -1000 ≤ contemptEnd ∧ contemptEnd ≤ 1000 := by decide
+  unfold contempt
+  split
+  · exact h2
+  · exact h1
 
 /-- `isDraw` -/
 def isDraw (p : Pos) : Bool :=
